@@ -17,13 +17,23 @@ try:
     text = open(demo).read()
     import re
     text2 = re.sub(r"/tmp/seed-[A-Za-z0-9_-]+?(?=/src|/tests|['\"/])", wt, text)
-    dpath = os.path.join(wt, "_demo.py"); open(dpath, "w").write(text2)
+    ddir = os.path.join(wt, "_seed_demo"); os.makedirs(ddir, exist_ok=True)
+    for extra in os.listdir(src):          # helper modules next to the demo (sim.py ...)
+        if extra.endswith(".py") and extra != "demo.py":
+            shutil.copy(os.path.join(src, extra), ddir)
+    dpath = os.path.join(ddir, "demo.py"); open(dpath, "w").write(text2)
     r0 = subprocess.run(["/venv/bin/python", dpath], cwd=wt, env=env, stdout=subprocess.PIPE, stderr=subprocess.STDOUT, text=True, timeout=600)
     res["demo_clean_exit"] = r0.returncode
-    r = sh("git -C %s apply %s" % (wt, os.path.join(src, "patch.diff"))); assert r.returncode == 0, "patch does not apply: " + r.stdout
+    r = sh("git -C %s apply %s" % (wt, os.path.join(src, "patch.diff")))
+    if r.returncode != 0:   # the tree moved on since the change was written: try a 3-way merge
+        r = sh("git -C %s apply -3 %s" % (wt, os.path.join(src, "patch.diff")))
+        assert r.returncode == 0 and "conflict" not in r.stdout.lower(), "patch does not apply: " + r.stdout
+        sh("git -C %s reset -q" % wt)
+        res["ported_with_3way_merge"] = True
+        open(os.path.join(src, "patch.diff"), "w").write(sh("git -C %s diff" % wt).stdout)
     r1 = subprocess.run(["/venv/bin/python", dpath], cwd=wt, env=env, stdout=subprocess.PIPE, stderr=subprocess.STDOUT, text=True, timeout=600)
     res["demo_mutated_exit"] = r1.returncode
-    os.remove(dpath)
+    shutil.rmtree(ddir)
     b = sh("%s/tools/baseline.py %s" % (V, wt)); res["baseline"] = b.stdout.strip().split("\n")[0]; res["baseline_ok"] = b.returncode == 0
     res["checks"] = {}
     for pid in pids:
@@ -41,7 +51,10 @@ ok = res.get("demo_clean_exit") == 0 and res.get("demo_mutated_exit", 0) != 0 an
 print(json.dumps(res, indent=1))
 if ok:
     dst = os.path.join(V, "seeded", sid); os.makedirs(dst, exist_ok=True)
-    shutil.copy(os.path.join(src, "patch.diff"), dst); shutil.copy(demo, dst)
+    shutil.copy(os.path.join(src, "patch.diff"), dst)
+    for extra in os.listdir(src):
+        if extra.endswith(".py"):
+            shutil.copy(os.path.join(src, extra), dst)
     meta = json.load(open(os.path.join(src, "meta.json")))
     meta["confirmed"] = res
     meta["what_i_ran"] = "tools/confirm_seed.py: demo on clean worktree (exit 0), demo with patch (exit != 0), tools/baseline.py on the patched worktree (all 2331 stable_pass tests pass), ./check <pid> with NFCPY_REPO=<patched worktree>"
